@@ -1465,6 +1465,16 @@ func (e *Env) applyRO(op Op) {
 				e.failf("ro", "GC on a read-only handle: %v", err)
 			}
 		}
+		if (e.Step+i)%2 == 0 {
+			// everything unloaded: the handle answers the same again
+			e.must("GC on a read-only handle", r.GC(0))
+			e.St.Inc("ro_handles_observed_again_after_gc")
+			if e.own("ro") {
+				e.observe(r, e.Dir, "ro", fmt.Sprintf("read-only handle %d after GC", i))
+			} else {
+				e.observeWith(r, e.Dir, e.ownTags(), fmt.Sprintf("read-only handle %d after GC", i))
+			}
+		}
 	}
 	for i, r := range hs {
 		e.must("read-only Close", r.Close())
